@@ -182,6 +182,29 @@ Theorem C19_bulk_index_escape_refuted : exists D H idx sid suf,
 Proof. exact site_bulk_index_refuted. Qed.
 Print Assumptions C19_bulk_index_escape_refuted.
 
+(* delete-index: for EVERY virtual-table list L (including names that are not safe components:
+   written before the validator existed, synced from another node, planted) and EVERY result
+   of expanding the requested name or pattern, every directory handed to os.RemoveAll is inside
+   the data directory.  This needs the per-expanded-name check. *)
+Theorem C19_delete_index_confined : forall D H L expanded p, is_dir D -> good_host H ->
+  In p (delete_index_removed D H L expanded) -> confined D p = true.
+Proof. exact delete_index_confined. Qed.
+Print Assumptions C19_delete_index_confined.
+(* validating only the REQUESTED name is not enough: "*v" is a safe element, expands to the
+   listed "../../../v", and the removed directory is outside *)
+Theorem C19_delete_index_request_only_validation_refuted : exists D H req L p,
+  is_dir D /\ good_host H /\ index_ok req = true /\
+  delete_index_removed D H L (expand_simple req L) = [] /\
+  In p (delete_index_removed_reqonly D H req L (expand_simple req L)) /\ confined D p = false.
+Proof. exact delete_index_reqonly_refuted. Qed.
+Print Assumptions C19_delete_index_request_only_validation_refuted.
+(* registration: whatever names the entry points are given, in any order, a list of safe
+   components stays a list of safe components *)
+Theorem C19_registration_keeps_list_safe : forall names L, Forall (fun n => index_ok n = true) L ->
+  Forall (fun n => index_ok n = true) (fold_left register_index names L).
+Proof. exact register_all_safe. Qed.
+Print Assumptions C19_registration_keeps_list_safe.
+
 (* mapping and alias files.  Route parameters are single elements; names from the _aliases
    request body (index and alias) pass IsSafePathComponent in AddAliases / RemoveAliases
    (before the fix: no validator). *)
